@@ -3,10 +3,12 @@ module github.com/buzzfeed/sso/verifharness
 go 1.14
 
 require (
+	github.com/18F/hmacauth v0.0.0-20151013130326-9232a6386b73
 	github.com/benbjohnson/clock v0.0.0-20161215174838-7dc76406b6d3
 	github.com/buzzfeed/sso v0.0.0
 	github.com/datadog/datadog-go v0.0.0-20180822151419-281ae9f2d895
 	github.com/sirupsen/logrus v1.4.2
+	golang.org/x/net v0.21.0
 )
 
 replace github.com/buzzfeed/sso => /repo
